@@ -1661,6 +1661,29 @@ class Module:
     def __init__(self):
         object.__setattr__(self, '_parameters', {})
         object.__setattr__(self, '_modules', {})
+        object.__setattr__(self, 'training', True)
+
+    def train(self, mode=True):
+        object.__setattr__(self, 'training', _py_bool(mode))
+        for m in self._modules.values():
+            m.train(mode)
+        return self
+
+    def eval(self):
+        return self.train(False)
+
+    def state_dict(self):
+        return {k: p.detach().clone() for k, p in self.named_parameters()}
+
+    def load_state_dict(self, sd, strict=True):
+        own = dict(self.named_parameters())
+        if strict and set(own) != set(sd):
+            raise RuntimeError('Error(s) in loading state_dict: key mismatch')
+        with no_grad():
+            for k, v in sd.items():
+                if k in own:
+                    own[k].copy_(v)
+        return None
 
     def __setattr__(self, k, v):
         if _isinstance(v, Parameter):
